@@ -16,7 +16,7 @@ Families
                     get_input for nine model kinds x hedge lists, compute_loss/price/fit on a scripted
                     simulate x criteria, BS module methods and WhalleyWilmott with None -> derivative
                     buffers and with explicit tensors, autogreek on the series, feature binding
-                    independence, access order (one bound feature / feature list / ModuleOutput / hedger asked for
+                    independence, the real simulators with tensor-valued init_state reused across calls, access order (one bound feature / feature list / ModuleOutput / hedger asked for
                     time steps along a de Bruijn word over {None,0..T-1}: every pair (quick) or triple (thorough)
                     of consecutive requests, each value == the same request on a freshly bound object).  All buffers of all instruments of the world and all caller tensors
                     are snapshotted before/after each call; each call is made twice (same result).
@@ -24,9 +24,12 @@ Families
                     three derivatives (different underlier types, path counts, dtypes, lengths; one hedged with a
                     listed option on the same stock); operations simulate / compute_hedge / compute_pl /
                     compute_loss (value and gradient) / price / fit / to / get_input / eval / train / deepcopy /
-                    evaluation by the copy; per transition the frame rule incl. autograd state, the parameter
-                    frame, no shared state between a hedger and its copy, and two differential oracles (fresh
-                    hedger on the live instruments; fresh hedger in the world of the data-changing operations only).
+                    evaluation by the copy / failing price, compute_loss, compute_pl (mismatched hedge list) /
+                    torch.set_default_dtype; per transition the frame rule incl. autograd state, the parameter
+                    frame, no shared state between a hedger and its copy, unchanged ambient state (grad mode,
+                    default dtype, training flag) and three differential oracles (fresh hedger on the live
+                    instruments; fresh hedger in the world of the data-changing operations only; the latter
+                    under the other torch default dtype).
 """
 from __future__ import annotations
 
@@ -93,7 +96,10 @@ def _run_call(ctx, spec, block, dtype, form, zoo=None):
         mutated = False
         if zoo is not None:
             diffs = W.diff_prims(s0, s1)
-            if spec["sim"]:
+            if spec["sim"] == "real":
+                # the real simulator ran (seeded torch RNG): the first primary's series are new; nothing else changes
+                diffs = [d for d in diffs if d[0][0] != 0]
+            elif spec["sim"]:
                 # frame rule for calls that simulate: the simulated primary's series are replaced
                 # (new storage) by exactly what the simulator delivered; nothing else changes
                 diffs = [d for d in diffs if not (d[0][0] == 0 and d[1] == "storage")]
@@ -804,6 +810,46 @@ def zoo_calls(z, seed, tier="quick"):
         add(f"{cname}.forward", f"{cname}(portfolio,payoff)", lambda c, f=prep_crit: f(c))
         if cname not in DEFAULT_CASH or z.dtype == torch.float64:
             add(f"{cname}.cash", f"{cname}.cash(portfolio,payoff)", lambda c, f=prep_crit: f(c, cash=True))
+    # -- tensor-valued init_state, reused across calls (real simulators, torch RNG seeded per call) ---------------------------------
+    def init_tensors(c):
+        return tuple(c.mk(f"init_state[{k}]", float(v) * 1.0625) for k, v in enumerate(p.default_init_state))
+
+    def buffers_of(prim):
+        return {n: b.detach().clone() for n, b in prim.named_buffers()}
+
+    def real(fn):
+        def thunk():
+            torch.manual_seed(20261004)
+            return fn()
+        return thunk
+
+    pname = type(p).__name__
+    def prep_sim(c, through_derivative):
+        ts = init_tensors(c)
+        if through_derivative:
+            return real(lambda: (d.simulate(n_paths=4, init_state=ts), buffers_of(p))[1])
+        return real(lambda: (p.simulate(n_paths=4, time_horizon=d.maturity, init_state=ts), buffers_of(p))[1])
+    add(f"{pname}.simulate", "simulate(init_state tensors)", lambda c: prep_sim(c, False), sim="real")
+    add(f"{type(d).__name__}.simulate", "derivative.simulate(init_state tensors)", lambda c: prep_sim(c, True), sim="real")
+    for meth in ("compute_loss", "price", "compute_pnl", "fit"):
+        if meth in ("compute_pnl", "fit") and not rich:
+            continue
+
+        def prep_init(c, meth=meth):
+            ts = init_tensors(c)
+            h = nn.Hedger(W.generic_linear(len(si) + 1, 1, seed, z.dtype, tag=16), list(si) + ["prev_hedge"],
+                          criterion=nn.EntropicRiskMeasure(2.0))
+
+            def run():
+                if meth == "fit":
+                    hh = nn.Hedger(W.generic_linear(len(si) + 1, 1, seed, z.dtype, tag=16), list(si) + ["prev_hedge"],
+                                   criterion=nn.EntropicRiskMeasure(2.0))
+                    return {"history": hh.fit(d, n_epochs=2, n_paths=4, init_state=ts, verbose=False),
+                            "weight": hh.model.weight.detach().clone()}
+                out = getattr(h, meth)(d, n_paths=4, init_state=ts)
+                return out.detach()
+            return real(run)
+        add(f"Hedger.{meth}", f"Hedger.{meth}(init_state tensors)", prep_init, sim="real")
     # -- functional pl on the series themselves ------------------------------------------------------------------------------------------------------------------------
     def prep_pl(c):
         unit = c.mk("unit", (torch.arange(z.N * 2 * T, dtype=torch.float64).reshape(z.N, 2, T) % 5 - 2) / 4)
@@ -921,7 +967,20 @@ class _Observer:
         if W.diff_prims(_no_ptr(pre), _no_ptr(s0)):
             from mc.core.runner import HarnessError
             raise HarnessError(f"replaying {hist} twice gives different series")
-        if isinstance(out_live, W.Raised):
+        # ambient state: grad mode and default dtype are as before whatever the operation did (raising or not);
+        # the training flag changes only as documented (eval -> off, train -> on, fit with validation -> off)
+        g0, d0, t0 = after.ambient_pre
+        g1, d1, t1 = after.ambient_post
+        want_t = {"eval": False, "train": True, "fit": False}.get(op[0], t0)
+        if after.failed and op[0] == "fit":
+            want_t = t1
+        for name, got, want in (("grad_mode", g1, g0), ("default_dtype", d1, d0), ("training_flag", t1, want_t)):
+            if got != want:
+                ctx.violation(site, f"ambient_state_changed:{name}",
+                              f"history {_fmt(hist)} then {_fmt([op])} (result: {W.describe(out_live) if not isinstance(out_live, str) else out_live[:80]}): "
+                              f"{name} is {got} afterwards, expected {want} [variant {self.variant}]",
+                              observed=got, expected=want, block=blk)
+        if isinstance(out_live, W.Raised) and after.failed:
             proj = W.build(self.variant, self.seed, W.data_projection(hist))
             if op[0] == "chedge":
                 proj.adopt(W._Donor(after, state=after.pre_copy_state))
@@ -1003,7 +1062,7 @@ class _Observer:
                         ctx.violation(site, "parameters_changed",
                                       f"history {_fmt(hist)} then {_fmt([op])}: parameter {grp}.{k} changed",
                                       observed=W.describe(st1[grp][k]), expected=W.describe(w), block=blk)
-        query = op[0] in ("hedge", "pl", "input", "loss", "price", "fit", "chedge")
+        query = op[0] in ("hedge", "pl", "input", "loss", "price", "fit", "chedge", "badprice", "badloss", "badpl")
         # an evaluation of the deep copy is compared with the same evaluation by a fresh hedger holding the copy's parameters
         ref_op = ("hedge", op[1]) if on_copy else op
         donor_state = after.pre_copy_state if on_copy else after.pre_state
@@ -1044,7 +1103,22 @@ class _Observer:
                           f"parameters on the derivative's current series (only simulate/to replayed: "
                           f"{_fmt(W.data_projection(hist))}) [variant {self.variant}]",
                           observed=W.describe(out_live), expected=W.describe(ref_b), block=blk)
-        ctx.add("differential_comparisons", 2)
+        # (3c) the same reference under the *other* ambient default dtype: observations on float32/float64 series
+        # do not depend on torch.get_default_dtype()
+        other = "float64" if after.ambient_pre[1] == "float32" else "float32"
+        ckey = pkey + (other,)
+        if ckey not in self.memo:
+            proj = W.build(self.variant, self.seed, W.data_projection(hist))
+            proj.adopt(W._Donor(after, state=donor_state))
+            self.memo[ckey] = W.safe_apply(proj, ref_op, ambient=other)
+        ref_c = self.memo[ckey]
+        if not W.same_result(out_live, ref_c):
+            ctx.violation(site, tag + "depends_on_default_dtype",
+                          f"after {_fmt(hist)} the result of {_fmt([op])} (ambient default {after.ambient_pre[1]}) differs from "
+                          f"the same query by a fresh hedger on the current series under torch default dtype {other} "
+                          f"[variant {self.variant}]",
+                          observed=W.describe(out_live), expected=W.describe(ref_c), block=blk)
+        ctx.add("differential_comparisons", 3)
         if isinstance(out_live, torch.Tensor) and out_live.numel():
             ctx.outcome((self.variant, op[0], round(float(out_live.detach().to(torch.float64).nan_to_num(nan=-1.0).sum()), 9)))
 
@@ -1125,7 +1199,8 @@ def run(ctx):
              "(per derivative: declared dtype, buffer names/shapes/dtypes; hedger: parameter dtype, prev_output "
              "shape/dtype, training flag, derivative a shared ModuleOutput is bound to and the last time step its bound "
              "features were asked for; names of all attributes stored on hedger, model, derivatives, underliers); every transition is executed on real objects "
-             "and checked (frame rule, parameter frame, two fresh-hedger differentials); non-trivial = query "
+             "and checked (frame rule incl. autograd state, parameter frame, hedger/copy separation, ambient grad mode / default "
+             "dtype / training flag, three fresh-hedger differentials incl. the other torch default dtype); non-trivial = query "
              "transitions with a data-dependent result")
     ctx.assume("abstract states merged by canon() have the same futures w.r.t. the property: control flow of pfhedge "
                "does not branch on series or parameter values, and both differential oracles copy the live values")
